@@ -15,6 +15,8 @@ ENGINES = [
      "kind_free_text": "generated event histories executed on the real scheduler.Cell under a virtual clock; reference-model oracles after every cycle; forked probe cycles"},
     {"name": "master-zk", "path": "vf/master", "serves_properties": ["C01", "C03", "C04", "C05", "C06", "C07", "C08", "C09", "C10", "C11"],
      "kind_free_text": "real Master/Loader on ZkBackend on an in-memory ZooKeeper (vf/zkfake.py); events produced with masterapi; fork-based crash cuts and restarts"},
+    {"name": "codecs", "path": "vf/checks/c15.py", "serves_properties": ["C15"],
+     "kind_free_text": "round-trip / injectivity monitors on the real encoders and decoders over generated domains"},
     {"name": "appmonitor-loop", "path": "vf/checks/c20.py", "serves_properties": ["C20"],
      "kind_free_text": "real sproc.appmonitor._run_sync on the in-memory ZooKeeper with a scripted time.sleep hook and a recording REST fake"},
     {"name": "api-ldapfake", "path": "vf/api", "serves_properties": ["C19", "C15"],
@@ -66,4 +68,8 @@ CHECKS['C20'] = dict(engine='appmonitor-loop', category='exploration', design_re
                      note="Trusted base: in-memory ZooKeeper fake; restclient.post replaced at the REST boundary (dispatches to masterapi on the same ZooKeeper); virtual clock and time.sleep hook; the independent token bucket is reset when the monitor node's content is rewritten (observed at the node).",
                      text="The real _run_sync loop (watches + reevaluate) runs tens of evaluations per generated history under an advancing virtual clock with instances dying, reconfigurations, deletions and every handled/unhandled REST failure; each recorded call is checked against missing count, an independent token bucket, exact surplus by policy and suspension.",
                      technique="runtime monitoring: recorded REST calls of the real monitor loop vs independent token-bucket / surplus reference under a virtual clock")
+CHECKS['C15'] = dict(engine='codecs', category='exploration', design_ref='DESIGN 5 C15',
+                     note="Trusted base: the harness' own field-wise comparison and canonical forms; in-memory ZooKeeper and LDAP directory for the storage-backed paths; os.stat patched for gen_uniqueid only. Field alphabets follow etc/schema; the node-name separator ',' is outside every field.",
+                     text="Tens of thousands of generated rules, instance/unique names, trace events, ZooKeeper payloads and LDAP objects per run are pushed through the real codec pairs (also through RuleMgr on disk, trace.post_zk -> AppTraceLoop, zkutils, admin create/get/update) and compared field-wise; a run-wide registry and single-field mutation pairs look for collisions.",
+                     technique="runtime monitoring: round-trip postconditions on the real codecs + injectivity registry over generated inputs")
 NOT_APPLICABLE = {}
